@@ -53,6 +53,12 @@ CHECKS = {
         note="The reaping clause is proved as _partial under the explicit hypothesis that the socket is writable when polled (unconditionally when its send buffer has room); the unconditional statement is refuted in the model (C18_reap_refuted, C18_stalled_never_closed) and on the real classes: open known finding kf_c18_stalled_peer (F21). Time is an integer clock; the loop period P and socket readiness are environment hypotheses; worker threads are represented by an atomic 'application finishes' event (the interleaving side is C04/C05/C11). connection_limit <= number of listeners is a degenerate configuration in which nothing is ever accepted (observation).",
         technique="inductive Coq proofs over event histories about a model whose decisions are regenerated from the source + extracted-model differential correspondence against the real server/channel/poll loop over a fake kernel and clock + trace monitors",
     ),
+    "C01": dict(
+        text="Spec/Ref9112.v is an independent, whole-stream, non-incremental RFC 9112 reference (lines up to CRLF, field lines checked character by character, framing per section 6.3 clause by clause, recursive-descent chunked decoder, trailers as field lines, named RFC tolerances: leading empty lines, obs-fold, request-line whitespace). The transliterated parser / receiver / task models are proved equal to it layer by layer, for ALL inputs: T1 field lines, request line and head-block cutting; T3 the framing decision {no body, Content-Length n, chunked, refuse 400, refuse 501} for all header dicts and versions; T2 fixed bodies and one-call chunked bodies (decoded bytes, end offset, verdict) against the recursive-descent decoder; T4a the head boundary; T5 the close-after decision (CL+TE, Transfer-Encoding on a non-1.1 request, close anywhere in a Connection list, 1.0 without keep-alive); and the refusal implications of the statement (bare CR/LF, bad field name, repeated single fields, bad Content-Length, bad Transfer-Encoding, non-ASCII target). Tie: K-chanseq (models vs the real HTTPChannel.received under >= 3 segmentations) and S-ref: the extracted reference run against the real channel + service() on grammar, mutation and exhaustive small-alphabet streams.",
+        design_ref="DESIGN.md section 7 C01, section 0.5",
+        note="T1, T3, T5 and T13 hold for all inputs against the strict reference; T2 chunked holds outside the open finding kf_c01_trailer_unvalidated (F10: trailer lines are not validated as field lines; witness in Findings/C01_witnesses.v); the whole-stream composition over a pipelined stream (C01_full_dev: the channel loop's offset accounting chaining the per-message theorems) is stated and tested by S-ref, not proved. Seven defects found by this package were repaired in /repo (c72b27e de76ee8 31e2659 272e5a4 e9cbb98 96bc60d 574dcaf). The tie to the Python is sampled.",
+        technique="layered refinement proofs in Coq of transliterated parser/receiver/task models to an independent RFC 9112 reference + differential execution of the extracted reference and models against the real channel",
+    ),
 }
 
 NOT_YET = {}
